@@ -68,6 +68,13 @@ type printer struct {
 // NAME: it is printed as NAME, or as the constant's expansion when the
 // printer was asked to substitute constants by hand.
 func (w *printer) tok(s string) int {
+	if len(s) > 2 && s[0] == '-' && s[1] == '$' {
+		// "-$NAME": a minus sign written directly in front of a constant use (no blank in between)
+		i := len(w.out)
+		w.out = append(w.out, Lex{S: "-", Glue: true})
+		w.tok(s[1:])
+		return i
+	}
 	if len(s) > 1 && s[0] == '$' {
 		if w.expand != nil {
 			first := len(w.out)
